@@ -113,6 +113,7 @@ static Type *enum_specifier(Token **rest, Token *tok);
 static Type *typeof_specifier(Token **rest, Token *tok);
 static Type *type_suffix(Token **rest, Token *tok, Type *ty);
 static Type *declarator(Token **rest, Token *tok, Type *ty);
+static Type *declarator2(Token **rest, Token *tok, Type *ty, bool is_param);
 static Node *declaration(Token **rest, Token *tok, Type *basety, VarAttr *attr);
 static void array_initializer2(Token **rest, Token *tok, Initializer *init, int i);
 static void struct_initializer2(Token **rest, Token *tok, Initializer *init, Member *mem);
@@ -606,7 +607,7 @@ static Type *func_params(Token **rest, Token *tok, Type *ty) {
     }
 
     Type *ty2 = declspec(&tok, tok, NULL);
-    ty2 = declarator(&tok, tok, ty2);
+    ty2 = declarator2(&tok, tok, ty2, true);
 
     Token *name = ty2->name;
     Token *name_pos = ty2->name_pos;
@@ -683,17 +684,25 @@ static Type *pointers(Token **rest, Token *tok, Type *ty) {
   return ty;
 }
 
+// Where no identifier has to be declared (in a type name and in a
+// parameter declaration), "(" followed by a type name or by ")" begins
+// a parameter list, as in `int (void)` or `int *(T)`, rather than a
+// parenthesized declarator (C11 6.7.6.3p11).
+static bool is_param_list(Token *tok) {
+  return equal(tok, "(") && (is_typename(tok->next) || equal(tok->next, ")"));
+}
+
 // declarator = pointers ("(" ident ")" | "(" declarator ")" | ident) type-suffix
-static Type *declarator(Token **rest, Token *tok, Type *ty) {
+static Type *declarator2(Token **rest, Token *tok, Type *ty, bool is_param) {
   ty = pointers(&tok, tok, ty);
 
-  if (equal(tok, "(")) {
+  if (equal(tok, "(") && !(is_param && is_param_list(tok))) {
     Token *start = tok;
     Type dummy = {};
-    declarator(&tok, start->next, &dummy);
+    declarator2(&tok, start->next, &dummy, is_param);
     tok = skip(tok, ")");
     ty = type_suffix(rest, tok, ty);
-    return declarator(&tok, start->next, ty);
+    return declarator2(&tok, start->next, ty, is_param);
   }
 
   Token *name = NULL;
@@ -710,11 +719,15 @@ static Type *declarator(Token **rest, Token *tok, Type *ty) {
   return ty;
 }
 
+static Type *declarator(Token **rest, Token *tok, Type *ty) {
+  return declarator2(rest, tok, ty, false);
+}
+
 // abstract-declarator = pointers ("(" abstract-declarator ")")? type-suffix
 static Type *abstract_declarator(Token **rest, Token *tok, Type *ty) {
   ty = pointers(&tok, tok, ty);
 
-  if (equal(tok, "(")) {
+  if (equal(tok, "(") && !is_param_list(tok)) {
     Token *start = tok;
     Type dummy = {};
     abstract_declarator(&tok, start->next, &dummy);
